@@ -14,11 +14,13 @@ import time
 
 import dbus
 
-from . import boot, simloop, simnet, simudp, tcpcl_world as tw, bp_world as bw, ref9174 as r74
+from . import boot, simloop, simnet, simudp, simether, refbtpu, tcpcl_world as tw, bp_world as bw, ref9174 as r74
 
 boot.tcpcl()
 uagent = simudp.install()
+bagent = simether.install()
 import udpcl.config  # noqa: E402
+import btpu.config  # noqa: E402
 import tcpcl.agent  # noqa: E402
 import bp.agent  # noqa: E402
 import bp.cla  # noqa: E402
@@ -46,7 +48,7 @@ class _HostSockets(object):
 
 
 class Host(object):
-    def __init__(self, world, index, routes, rx_routes, tcpcl_kwargs=None, udpcl_mtu=None):
+    def __init__(self, world, index, routes, rx_routes, tcpcl_kwargs=None, udpcl_mtu=None, btpu_mtu=None):
         ''' routes: [(regex, next_node_index[, cl_type[, route mtu]])] ; rx_routes: [(regex, action)] '''
         self.world = world
         self.index = index
@@ -73,6 +75,16 @@ class Host(object):
         with simloop.entered(self.uctx):
             self.udpcl = uagent.Agent(self.ucfg)
             self.udpcl.listen(self.address, PORT, {})
+        # the BTP-U agent process of the node, on the one Ethernet segment all nodes share
+        self.btpu_service = 'org.verif.n%d.btpu' % index
+        self.ectx = simloop.Context('n%d-btpu' % index)
+        world.host_of[self.ectx] = self
+        self.mac = bytes([2, 0, 0, 0, 0, index])
+        simether.NET.add_host(self.ectx, 'n%d' % index, {'eth0': self.mac})
+        self.ecfg = btpu.config.Config(node_id=self.node_id, mtu_default=btpu_mtu, bus_service=self.btpu_service)
+        with simloop.entered(self.ectx):
+            self.btpu = bagent.Agent(self.ecfg)
+            self.btpu.listen('eth0', {})
         cfg = bp.config.Config(node_id=self.node_id, bus_service=self.bp_service)
         for pat, action in rx_routes:
             cfg.rx_route_table.append(bp.config.RxRouteItem(eid_pattern=re.compile(pat), action=action))
@@ -83,6 +95,8 @@ class Host(object):
             raw = dict(address='10.0.0.%d' % nxt, port=PORT)
             if cl_type == 'tcpcl':
                 raw['next_nodeid'] = 'dtn://n%d/' % nxt
+            if cl_type == 'btpu':
+                raw = dict(address='02:00:00:00:00:%02x' % nxt, local_if='eth0')
             cfg.tx_route_table.append(bp.config.TxRouteItem(
                 eid_pattern=re.compile(pat), next_nodeid='dtn://n%d/' % nxt, cl_type=cl_type, mtu=mtu, raw_config=raw))
         self.bcfg = cfg
@@ -90,10 +104,11 @@ class Host(object):
             self.bp = bp.agent.Agent(cfg)
             self.bp.cl_attach('tcpcl', self.tcpcl_service)
             self.bp.cl_attach('udpcl', self.udpcl_service)
+            self.bp.cl_attach('btpu', self.btpu_service)
         self.send_errors = []
         # what the adaptors hand to the BP agent (instance wrappers: harness-side observation)
         self.handed = []
-        for cltype in ('tcpcl', 'udpcl'):
+        for cltype in ('tcpcl', 'udpcl', 'btpu'):
             adaptor = self.bp._cl_agent[cltype]
             real = adaptor.recv_bundle_finish
 
@@ -127,15 +142,16 @@ class Host(object):
         return out
 
     def escapes(self):
-        return list(self.tctx.escapes) + list(self.bctx.escapes) + list(self.uctx.escapes)
+        return list(self.tctx.escapes) + list(self.bctx.escapes) + list(self.uctx.escapes) + list(self.ectx.escapes)
 
 
 class StackWorld(object):
-    def __init__(self, specs, tcpcl_kwargs=None, udpcl_mtu=None):
+    def __init__(self, specs, tcpcl_kwargs=None, udpcl_mtu=None, btpu_mtu=None):
         ''' specs: per host (index from 1) dict(routes=[(regex, next index)], rx_routes=[(regex, action)]) '''
         bw.reset()
         dbus.RECORDER.reset()
         simudp.NET.reset()
+        simether.NET.reset()
         self.net = simnet.Network()
         self.host_of = {}
         self._real_socket = tcpcl.agent.socket
@@ -145,7 +161,7 @@ class StackWorld(object):
         self.hosts = {}
         try:
             for index, spec in enumerate(specs, 1):
-                self.hosts[index] = Host(self, index, spec.get('routes', ()), spec.get('rx_routes', ()), tcpcl_kwargs, udpcl_mtu)
+                self.hosts[index] = Host(self, index, spec.get('routes', ()), spec.get('rx_routes', ()), tcpcl_kwargs, udpcl_mtu, btpu_mtu)
         except Exception:
             self.close()
             raise
@@ -158,6 +174,7 @@ class StackWorld(object):
         for host in self.hosts.values():
             yield host.tctx
             yield host.uctx
+            yield host.ectx
             yield host.bctx
 
     def pump(self, rounds=2000):
@@ -166,6 +183,9 @@ class StackWorld(object):
             moved = self.net.pump()
             while simudp.NET.inflight:
                 simudp.NET.deliver(simudp.NET.inflight.pop(0))
+                moved = True
+            while simether.NET.inflight:
+                simether.NET.deliver(simether.NET.inflight.pop(0))
                 moved = True
             for ctx in self.contexts():
                 for _i in range(50):
@@ -256,6 +276,37 @@ class StackWorld(object):
             out.append(dict(src=src, dst=dst, link=-1, data=data, complete=len(data) == total, id=xid))
         return out
 
+    def btpu_bundles(self):
+        ''' Every bundle carried by BTP-U, from the Ethernet frames sent (independent parser): same form as transfers(). '''
+        import struct
+        out = []
+        by_mac = dict((h.mac, h.index) for h in self.hosts.values())
+        parts = {}
+        for num, item in enumerate(simether.NET.sent_log):
+            frame = item['frame']
+            src, dst = by_mac.get(frame[6:12]), by_mac.get(frame[0:6])
+            try:
+                msgs = refbtpu.ref_parse(frame[14:])
+            except ValueError:
+                out.append(dict(src=src, dst=dst, link=-1000 - num, data=b'', complete=False, id=None))
+                continue
+            for msg in msgs:
+                body = bytes.fromhex(msg['body'])
+                if msg['type'] == 2:
+                    out.append(dict(src=src, dst=dst, link=-1000 - num, data=body, complete=True, id=None))
+                elif msg['type'] in (3, 4) and len(body) >= 8:
+                    xnum, sidx = struct.unpack('>II', body[:8])
+                    ent = parts.setdefault((src, dst, xnum), dict(segs={}, end=None, last=num))
+                    ent['segs'][sidx] = body[8:]
+                    ent['last'] = num
+                    if msg['type'] == 4:
+                        ent['end'] = sidx
+        for (src, dst, xnum), ent in parts.items():
+            whole = ent['end'] is not None and sorted(ent['segs']) == list(range(ent['end'] + 1))
+            out.append(dict(src=src, dst=dst, link=-1000 - ent['last'], complete=whole, id=xnum,
+                            data=b''.join(ent['segs'][i] for i in sorted(ent['segs']))))
+        return out
+
     def escapes(self):
         out = []
         for host in self.hosts.values():
@@ -276,8 +327,9 @@ def stack_ops():
 def cases():
     from hypothesis import strategies as st
     return st.fixed_dictionaries({'kind': st.just('stack'), 'ops': stack_ops(), 'keepalive': st.sampled_from([0, 0, 10]),
-                                  'hops': st.lists(st.sampled_from(['tcpcl', 'tcpcl', 'udpcl']), min_size=2, max_size=2),
-                                  'umtu': st.sampled_from([None, 100]), 'rmtu': st.sampled_from([None, None, 150]),
+                                  'hops': st.lists(st.sampled_from(['tcpcl', 'tcpcl', 'udpcl', 'btpu']), min_size=2, max_size=2),
+                                  'umtu': st.sampled_from([None, 100]), 'emtu': st.sampled_from([None, 100]),
+                                  'rmtu': st.sampled_from([None, None, 150]),
                                   'size': st.sampled_from([8, 8, 300])})
 
 
@@ -293,7 +345,7 @@ def drive(case, out):
         dict(routes=[('^dtn://n1/', 1, hop12, rmtu), ('^dtn://n3/', 3, hop23, rmtu)],
              rx_routes=[('^dtn://n2/', 'deliver'), ('^dtn://n[13]/', 'forward')]),
         dict(routes=[('^dtn://n[12]/', 2, hop23, rmtu)], rx_routes=[('^dtn://n3/', 'deliver')]),
-    ], tcpcl_kwargs=dict(keepalive_time=case.get('keepalive', 0)), udpcl_mtu=case.get('umtu'))
+    ], tcpcl_kwargs=dict(keepalive_time=case.get('keepalive', 0)), udpcl_mtu=case.get('umtu'), btpu_mtu=case.get('emtu'))
     out.label('stack-hops:%s+%s' % (hop12, hop23))
     if rmtu:
         out.label('stack-route-mtu')
